@@ -77,10 +77,15 @@ MutOps(g) ==
   \cup { [Op("del_atom_attr") EXCEPT !.a = a, !.k = k] : a \in Ids, k \in {"q", "atom_type"} }
   \cup { [Op("set_bond_attr") EXCEPT !.a = p[1], !.b = p[2], !.k = "w", !.v = v] : p \in Pairs, v \in Vals }
   \cup { [Op("del_bond_attr") EXCEPT !.a = p[1], !.b = p[2], !.k = "w"] : p \in Pairs }
+  \cup { [Op("bonds_from_matrix") EXCEPT !.S = cs, !.flag = f] :
+           cs \in { x \in SUBSET { 10 * lo + hi : lo \in Atoms(g), hi \in Atoms(g) } :
+                        Cardinality(x) \in 1..2 /\ \A c \in x : c \div 10 < c % 10 },
+           f \in BOOLEAN }
   \cup (IF HasRoles(g.kind) THEN
          { [Op(n) EXCEPT !.a = p[1], !.b = p[2]] :
               n \in {"add_formed_bond", "add_broken_bond", "add_fleeting_bond", "add_bond_badrole",
-                     "set_bond_badrole", "del_bond_role"}, p \in Pairs }
+                     "set_bond_badrole", "add_formed_badrole", "add_broken_badrole", "add_fleeting_badrole",
+                     "del_bond_role"}, p \in Pairs }
          \cup { [Op("add_bond") EXCEPT !.a = p[1], !.b = p[2], !.ch = c] : p \in Pairs, c \in Changes }
          \cup { [Op("set_bond_role") EXCEPT !.a = p[1], !.b = p[2], !.ch = c] : p \in Pairs, c \in Changes }
        ELSE {})
